@@ -547,6 +547,47 @@ static void sec_inverse(Ctx& c, uint64_t) {
   run_inverse(c, k);
 }
 
+// thin regimes of the inverse area computation (added after seeded change C03-r3s1): the AREA block of GenInverse switches formula at
+// omg12 = 135 deg (comg12 = -0.7071) and at sbet2 - sbet1 = 1.75, and recognises "sin/cos of omg12 not yet computed" by a sentinel
+// that sin(omg12) can reach only within ~1e-6 deg of omg12 = 90 deg.  Pairs are constructed on the REF geodesic so that the
+// auxiliary-sphere longitude difference omg12 hits the target to within a log-uniform jitter of 1e-11..1e-4 deg.
+static void sec_inverse_thin(Ctx& c, uint64_t i) {
+  vh::Rng& r = c.rng;
+  InvCase k; k.e = gh::pick_ellipsoid(r); k.constructed = true;
+  gh::Solvers& S = gh::solvers(k.e.a, k.e.f, k.e.series_ok);
+  typedef long double LD;
+  static const double targets[] = {90, 90, 90, 135, 45, 90, 135, 1e-3};
+  double tgt = targets[i % 8];
+  const LD D = 3.14159265358979323846264338327950288L / 180;
+  if (r.below(5) == 0) {       // latitude-difference threshold sbet2 - sbet1 = 1.75 (free pair, self-consistency only)
+    k.constructed = false; k.azi1 = 0;
+    LD x = r.uniform(0.76, 0.99), y = 1.75L - x + (LD)(r.sign() * r.logu(1e-17, 1e-6));
+    LD n = 1 - (LD)k.e.f;      // tan(phi) = tan(bet) / (1 - f)
+    k.lat1 = (double)(-std::atan2(x / n, std::sqrt(1 - x * x)) / D); k.lat2 = (double)(std::atan2(y / n, std::sqrt(1 - y * y)) / D);
+    if (r.coin()) { std::swap(k.lat1, k.lat2); } if (r.coin()) { k.lat1 = -k.lat1; k.lat2 = -k.lat2; }
+    k.lon1 = r.uniform(-180, 180); k.lon2 = k.lon1 + r.sign() * r.uniform(1, 160);
+    k.cls = "inverse-thin/" + k.e.bucket + "/sbet2-sbet1=1.75"; run_inverse(c, k); return;
+  }
+  k.lat1 = r.coin(0.15) ? r.sign() * r.logu(1e-6, 1) : r.uniform(-75, 75);
+  double azi1 = r.sign() * r.uniform(1, 179);
+  LD n = 1 - (LD)k.e.f, sphi = std::sin((LD)k.lat1 * D), cphi = std::cos((LD)k.lat1 * D), sb = n * sphi, cb = cphi, h = std::hypot(sb, cb); sb /= h; cb /= h;
+  LD sa = std::sin(std::fabs((LD)azi1) * D), ca = std::cos((LD)azi1 * D), salp0 = sa * cb;
+  LD sig1 = std::atan2(sb, ca * cb), om1 = std::atan2(salp0 * std::sin(sig1), std::cos(sig1));
+  LD jit = (LD)(r.sign() * r.logu(1e-11, 1e-4)), om2 = om1 + ((LD)tgt + jit) * D;
+  LD sig2 = std::atan2(std::sin(om2), salp0 * std::cos(om2)), a12 = (sig2 - sig1) / D;
+  while (a12 <= 0) a12 += 360;
+  if (!(a12 > 0 && a12 < 179)) { c.event("inverse-thin construction abandoned (arc not below 179 deg)"); return; }
+  k.lon1 = r.below(3) == 0 ? 0.0 : r.uniform(-180, 180);
+  ref::GeodLine<q128> L(S.E, (q128)k.lat1, (q128)azi1, false);
+  ref::GeodPos<q128> P = L.at_arc((q128)a12);
+  if ((double)ref::fabs(P.lon12) > 179.5) { c.event("inverse construction abandoned (longitudinal extent)"); return; }
+  k.P0 = P; k.azi1 = azi1;
+  k.lat2 = (double)P.lat2; k.lon2 = (double)((q128)k.lon1 + P.lon12);
+  char tb[32]; std::snprintf(tb, sizeof tb, "%g", tgt);
+  k.cls = "inverse-thin/" + k.e.bucket + "/omg12=" + tb + (std::fabs((double)jit) < 1e-7 ? "/jitter<1e-7deg" : "/jitter<1e-4deg");
+  run_inverse(c, k);
+}
+
 // pairs that are not constructed from a known geodesic (antipodal region, meridional, equatorial, poles, coincident): self-consistency only
 static void sec_inverse_free(Ctx& c, uint64_t) {
   vh::Rng& r = c.rng;
@@ -758,6 +799,7 @@ int main(int argc, char** argv) {
   S.push_back({"laws", 40000, 800000, true, sec_laws, 60});
   S.push_back({"inverse", 8000, 160000, true, sec_inverse, 120});
   S.push_back({"inverse_free", 3000, 60000, true, sec_inverse_free, 120});
+  S.push_back({"inverse_thin", 4000, 80000, true, sec_inverse_thin, 120});
   S.push_back({"polygon", 1200, 24000, true, sec_polygon, 300});
   return vh::run_sections(argc, argv, S);
 }
